@@ -1150,6 +1150,17 @@ func (fi *fileInfo) formulas(fd *ast.FuncDecl) [][2]string {
 		case *ast.BinaryExpr:
 			return subst(x.X) + " " + x.Op.String() + " " + subst(x.Y)
 		case *ast.CallExpr:
+			// a block parameter read in place (pb.GetGranularity(), int64(pb.GetGranularity())) is written like
+			// the local that is usually defined by it
+			gc := x
+			if id, ok := x.Fun.(*ast.Ident); ok && len(x.Args) == 1 && builtinTypes[id.Name] {
+				if c, ok := unparen(x.Args[0]).(*ast.CallExpr); ok {
+					gc = c
+				}
+			}
+			if sel, ok := gc.Fun.(*ast.SelectorExpr); ok && strings.HasPrefix(sel.Sel.Name, "Get") && len(gc.Args) == 0 {
+				return sel.Sel.Name
+			}
 			var args []string
 			for _, a := range x.Args {
 				args = append(args, subst(a))
@@ -1256,6 +1267,11 @@ func main() {
 	file := parseFile(filepath.Join(repo, "osmpbf", "decode_data.go"))
 	helpers := inlineFile(file) // normal form: helpers and closures inlined into their call sites
 	guardToSwitch(file)         // ... and one-armed negative guards written as switches
+	for _, d := range file.Decls {
+		if fd, ok := d.(*ast.FuncDecl); ok && !helpers[fd.Name.Name] {
+			projectLocals(fd) // ... and locals that only name a field path / bundle values replaced by what they name
+		}
+	}
 	if os.Getenv("PBFCODE_DUMP") != "" {
 		printer.Fprint(os.Stderr, fset, file)
 	}
